@@ -15,15 +15,31 @@ func judgeConservation(j *judgeCtx) {
 		if j.stateAt(seq) != lsR || wd.cancelled != 0 {
 			continue
 		}
-		// a TunePool in flight makes the limit ambiguous
+		// a TunePool in flight makes the limit ambiguous, and so do two successful ones that
+		// overlapped when neither was surely overwritten by a later one (which stored last?)
 		lim := wd.effConc(wd.cfg.Conc)
 		amb := false
+		var done []*Call
 		for _, t := range j.r.calls {
 			if t.K == opTune && t.Inv < seq {
 				if t.Ret == 0 || t.Ret > seq {
 					amb = true
 				} else if t.Err == "" {
-					lim = wd.effConc(t.Arg)
+					done = append(done, t)
+				}
+			}
+		}
+		var last *Call
+		for _, t := range done {
+			if last == nil || t.Ret > last.Ret {
+				last = t
+			}
+		}
+		if last != nil {
+			lim = wd.effConc(last.Arg)
+			for _, t := range done {
+				if t != last && t.Ret > last.Inv && wd.effConc(t.Arg) != lim {
+					amb = true // overlapped the last one: either value may be in effect
 				}
 			}
 		}
